@@ -10,6 +10,7 @@ import (
 
 	"golang.org/x/tools/go/ssa"
 
+	"rtpcheck/core"
 	"rtpcheck/lin"
 )
 
@@ -172,10 +173,18 @@ func (it *interp) analyzeLoop(f frameID, fn *ssa.Function, L *loop, ins []edgeIn
 				case token.LSS, token.LEQ, token.GTR, token.GEQ, token.EQL, token.NEQ:
 					for _, op := range []ssa.Value{x.X, x.Y} {
 						op := op
-						if kindOf(op.Type()) != kInt || definedInLoop(op) {
+						if kindOf(op.Type()) != kInt {
 							continue
 						}
 						if _, isC := op.(*ssa.Const); isC {
+							continue
+						}
+						if definedInLoop(op) {
+							// an expression recomputed in every iteration from values defined outside the
+							// loop (go/ssa does not hoist `hi - lo` out of `i < hi-lo`) is invariant too
+							if get := invariantExpr(it, f, op, definedInLoop, 3); get != nil {
+								addTerm(op.Name(), get)
+							}
 							continue
 						}
 						addTerm(op.Name(), func(d *disjunct) *lin.Lin { return it.intLin(d, f, op) })
@@ -590,6 +599,44 @@ func (it *interp) nilAtomKey(f frameID, head *ssa.BasicBlock, key string) *lin.L
 }
 
 // genCandidates instantiates the invariant templates.
+// invariantExpr returns an evaluator for an integer expression built with + and - (and * by a constant)
+// from values defined outside the loop, or nil when v is not of that shape. Only wide (non-wrapping)
+// arithmetic is accepted.
+func invariantExpr(it *interp, f frameID, v ssa.Value, inLoop func(ssa.Value) bool, depth int) func(d *disjunct) *lin.Lin {
+	if c, ok := v.(*ssa.Const); ok {
+		if n, ok := core.ConstInt(c); ok {
+			return func(*disjunct) *lin.Lin { return lin.Const(n) }
+		}
+		return nil
+	}
+	if !inLoop(v) {
+		return func(d *disjunct) *lin.Lin { return it.intLin(d, f, v) }
+	}
+	b, ok := v.(*ssa.BinOp)
+	if !ok || depth == 0 || !isWide(b.Type()) || isUnsigned(b.Type()) {
+		return nil
+	}
+	switch b.Op {
+	case token.ADD, token.SUB:
+		x, y := invariantExpr(it, f, b.X, inLoop, depth-1), invariantExpr(it, f, b.Y, inLoop, depth-1)
+		if x == nil || y == nil {
+			return nil
+		}
+		sub := b.Op == token.SUB
+		return func(d *disjunct) *lin.Lin {
+			l, r := x(d), y(d)
+			if l == nil || r == nil {
+				return nil
+			}
+			if sub {
+				return l.Sub(r)
+			}
+			return l.Add(r)
+		}
+	}
+	return nil
+}
+
 func genCandidates(vars []lvar, terms []term) []cand {
 	var out []cand
 	stage := 1
